@@ -10,6 +10,7 @@ import (
 	"fmt"
 	"io"
 	"log"
+	"math"
 	"net"
 	"os"
 	"slices"
@@ -75,6 +76,11 @@ const (
 	// connection is closed, preventing stalled clients from holding
 	// goroutines indefinitely.
 	connReadTimeout = 30 * time.Second
+
+	// maxMessagePrealloc is the most memory allocated for an incoming message
+	// before any of it has been received. Larger messages are accommodated as
+	// they arrive.
+	maxMessagePrealloc = 1024 * 1024
 
 	// maxConcurrentConns bounds the number of connections the service handles
 	// concurrently, preventing connection floods from spawning unbounded goroutines.
@@ -380,13 +386,12 @@ func (s *Service) handleConn(conn net.Conn) {
 		}
 		sz := binary.LittleEndian.Uint64(b[0:])
 
-		p := make([]byte, sz)
 		if s.connTimeout > 0 {
 			if err := conn.SetReadDeadline(time.Now().Add(s.connTimeout)); err != nil {
 				return
 			}
 		}
-		_, err = io.ReadFull(conn, p)
+		p, err := readMessage(conn, sz)
 		if err != nil {
 			return
 		}
@@ -691,6 +696,23 @@ func (s *Service) handleConn(conn net.Conn) {
 			}
 		}
 	}
+}
+
+// readMessage reads a message of sz bytes from r. The size is whatever the
+// remote end sent and cannot be trusted, so it is not used to allocate memory
+// up front beyond maxMessagePrealloc: the buffer grows as the bytes actually
+// arrive, and a size that cannot be represented is rejected. Otherwise a few
+// bytes on the wire could make the node allocate gigabytes, or panic.
+func readMessage(r io.Reader, sz uint64) ([]byte, error) {
+	if sz > math.MaxInt64 {
+		return nil, fmt.Errorf("message size %d is too large", sz)
+	}
+	var buf bytes.Buffer
+	buf.Grow(int(min(sz, maxMessagePrealloc)))
+	if _, err := io.CopyN(&buf, r, int64(sz)); err != nil {
+		return nil, err
+	}
+	return buf.Bytes(), nil
 }
 
 func marshalAndWrite(conn net.Conn, m pb.Message) error {
